@@ -735,14 +735,19 @@ class Ex:
                 nz = [toreal(R(x)) != 0 for x in v.vals]
                 return z3.Or(*nz) if name == '.any' else z3.And(*nz)
             raise OutsideSubset(f'{name[1:]}() of a non-local array at line {n.lineno}')
-        if name == 'np.searchsorted' and len(n.args) == 2 and not n.keywords:
-            # dependency contract (sorted first argument, side='left'): the insertion point is the first index i in 0..n with a[i] >= v
-            # (i == n when no element is >= v)  --  the same shape as np.where(v <= np.r_[a, inf])[0][0]
+        if name == 'np.searchsorted' and len(n.args) == 2 and all(k.arg == 'side' and isinstance(k.value, ast.Constant) and k.value.value in ('left', 'right')
+                                                                   for k in n.keywords):
+            # dependency contract (sorted first argument): side='left': the insertion point is the first index i in 0..n with a[i] >= v,
+            # side='right': the first index with a[i] > v (i == n when there is none)  --  the same shape as np.where(v <= np.r_[a, inf])[0][0]
+            side = n.keywords[0].value.value if n.keywords else 'left'
             a, v = self.ev(n.args[0]), self.ev(n.args[1])
             if not isinstance(a, ArrObj) or len(a.shape) != 1:
                 raise OutsideSubset('np.searchsorted on something that is not a 1-D array')
             nlen = R(a.shape[0])
-            cond = CondArr(lambda i, a=a, v=v, nlen=nlen: z3.If(R(i) < nlen, toreal(R(v)) <= toreal(R(a.read([R(i)]))), z3.BoolVal(True)), nlen + 1)
+            if side == 'left':
+                cond = CondArr(lambda i, a=a, v=v, nlen=nlen: z3.If(R(i) < nlen, toreal(R(v)) <= toreal(R(a.read([R(i)]))), z3.BoolVal(True)), nlen + 1)
+            else:
+                cond = CondArr(lambda i, a=a, v=v, nlen=nlen: z3.If(R(i) < nlen, toreal(R(v)) < toreal(R(a.read([R(i)]))), z3.BoolVal(True)), nlen + 1)
             return self.first_index(cond)
         if name == 'len':
             v = self.ev(n.args[0])
